@@ -42,6 +42,7 @@ type FuncContract struct {
 	Requires    []*Clause
 	Ensures     []*Clause
 	Invariants  map[int][]*Clause
+	Decreases   map[int]*Clause // loop ordinal -> variant: a term that is >= 0 whenever the loop repeats and gets smaller with every iteration
 	Modifies    []string
 	HasMod      bool
 	Emits       []Emit
@@ -401,8 +402,25 @@ func (db *ContractDB) parseFile(file, pkgPath string) error {
 				case "loop":
 					// loop N invariant [name:] expr
 					fs := strings.Fields(crest)
+					if len(fs) >= 3 && fs[1] == "decreases" {
+						// loop N decreases expr   (termination: the loop repeats at most expr times)
+						n, err := strconv.Atoi(fs[0])
+						if err != nil {
+							return fmt.Errorf("%s: bad loop ordinal", cwhere)
+						}
+						body := strings.TrimSpace(crest[strings.Index(crest, "decreases")+len("decreases"):])
+						ex, err := rewriteExpr(body)
+						if err != nil {
+							return fmt.Errorf("%s: %v", cwhere, err)
+						}
+						if fc.Decreases == nil {
+							fc.Decreases = map[int]*Clause{}
+						}
+						fc.Decreases[n] = &Clause{Kind: "decreases", Name: "decreases", Expr: ex, Raw: body, Loop: n, Where: cwhere}
+						continue
+					}
 					if len(fs) < 3 || fs[1] != "invariant" {
-						return fmt.Errorf("%s: expected 'loop N invariant expr'", cwhere)
+						return fmt.Errorf("%s: expected 'loop N invariant expr' or 'loop N decreases expr'", cwhere)
 					}
 					n, err := strconv.Atoi(fs[0])
 					if err != nil {
